@@ -310,3 +310,48 @@ func H_C13_ListEdges() {
 	rt.Assert(rt.Implies(eq, listSame(ca, cb)), "C13.list.discriminates")
 	rt.Assert(rt.Iff(eq, b.Equal(a)), "C13.list.symmetric")
 }
+
+// H_C13_ListDupIds: symmetry of node-list equality when identifiers repeat inside a list (ids chosen by decision from
+// two values, names symbolic): whatever Equal answers for such lists, it answers the same in both directions.
+func H_C13_ListDupIds() {
+	mk := func(p string) *sbom.NodeList {
+		nl := &sbom.NodeList{}
+		for i := 0; i < 2; i++ {
+			nl.Nodes = append(nl.Nodes, &sbom.Node{Id: []string{"x", "y"}[rt.NondetChoice(p+"id", 2)], Name: rt.NondetString(p + "name")})
+		}
+		return nl
+	}
+	a, b := mk("a"), mk("b")
+	rt.Assert(rt.Iff(a.Equal(b), b.Equal(a)), "C13.list.symmetric")
+}
+
+// H_C13_Multiplicity: same-content means equal multisets: an element listed once and the same element listed twice
+// are different contents, for every set-valued attribute (plain-word values: outside the listed collision region).
+func H_C13_Multiplicity() {
+	x := rt.NondetString("x")
+	rt.Assume(rt.StrPlain(x))
+	n1, n2 := sentinelNode("n", "a"), sentinelNode("n", "a")
+	site := ""
+	switch rt.NondetChoice("field", 6) {
+	case 0:
+		n1.Licenses, n2.Licenses, site = []string{x}, []string{x, x}, "Licenses"
+	case 1:
+		n1.Attribution, n2.Attribution, site = []string{x}, []string{x, x}, "Attribution"
+	case 2:
+		n1.FileTypes, n2.FileTypes, site = []string{x}, []string{x, x}, "FileTypes"
+	case 3:
+		p := func() *sbom.Person { return &sbom.Person{Name: x, Email: "e"} }
+		n1.Suppliers, n2.Suppliers, site = []*sbom.Person{p()}, []*sbom.Person{p(), p()}, "Suppliers"
+	case 4:
+		p := func() *sbom.Person { return &sbom.Person{Name: x, IsOrg: true} }
+		n1.Originators, n2.Originators, site = []*sbom.Person{p()}, []*sbom.Person{p(), p()}, "Originators"
+	case 5:
+		r := func() *sbom.ExternalReference {
+			return &sbom.ExternalReference{Url: x, Type: sbom.ExternalReference_VCS, Hashes: map[int32]string{1: "h"}}
+		}
+		n1.ExternalReferences, n2.ExternalReferences, site = []*sbom.ExternalReference{r()}, []*sbom.ExternalReference{r(), r()}, "ExternalReferences"
+	}
+	rt.Assert(rt.And(rt.Not(n1.Equal(n2)), rt.Not(n2.Equal(n1))), "C13.multiplicity."+site)
+	l1, l2 := &sbom.NodeList{Nodes: []*sbom.Node{n1}}, &sbom.NodeList{Nodes: []*sbom.Node{n2}}
+	rt.Assert(rt.Not(l1.Equal(l2)), "C13.multiplicity.list."+site)
+}
